@@ -423,9 +423,13 @@ def snapshot(v, memo=None):
     if isinstance(v, SArr):
         c = SArr(v.arr, v.n, v.kind, v.name, v.dtype)
         c.uid = v.uid
+        if getattr(v, "contiguous", None) is not None:
+            c.contiguous = v.contiguous  # storage layout flag (pyvc/layout.py)
     elif isinstance(v, NArr):
         c = NArr(v.shape, v.items, v.kind, v.dtype)
         c.uid = v.root().uid
+        if getattr(v, "contiguous", None) is not None:
+            c.contiguous = v.contiguous
     elif isinstance(v, PList):
         c = PList()
         c.uid, c.name, c.proto = v.uid, v.name, v.proto
